@@ -6,6 +6,7 @@ From Coq Require Import String.
 From PV Require Import Base.Outcome Base.Prim Spec.C04Desc Spec.C04Spec Gen.C04Forms Model.C04Model.
 From Coq Require Import ZArith List Bool Lia.
 Import ListNotations.
+Open Scope string_scope.
 Open Scope list_scope.
 Open Scope Z_scope.
 
@@ -22,3 +23,179 @@ Definition forms_match (c : cfg) : bool := forallb (form_matches c) std_form_nam
 (* which (configuration, form) pairs deviate: empty iff the table is the standard's *)
 Definition form_deviations : list (cfg * (Z * string)) :=
   flat_map (fun c => map (fun cn => (c, cn)) (filter (fun cn => negb (form_matches c cn)) std_form_names)) all_cfgs.
+
+(* ------------------------------------------------------------------ theorem 1: the form table *)
+Lemma forms_match_all : forallb forms_match all_cfgs = true.
+Proof. vm_compute. reflexivity. Qed.
+
+Lemma cfg_ok_in (c : cfg) : cfg_ok c = true -> In c all_cfgs.
+Proof.
+  destruct c as [le f a v]. unfold cfg_ok. cbn [c_ver]. intros H.
+  assert (Hv : v = 2 \/ v = 3 \/ v = 4 \/ v = 5) by lia.
+  destruct Hv as [-> | [-> | [-> | ->]]]; destruct le, f, a; vm_compute; tauto.
+Qed.
+
+Lemma in_std_names_class (c : cfg) code k :
+  std_form_class c code = Some k -> exists name, In (code, name) std_form_names.
+Proof.
+  unfold std_form_class. intros H.
+  repeat match type of H with
+         | (if ?a =? ?b then _ else _) = _ =>
+             destruct (Z.eqb_spec a b) as [-> | _];
+             [ eexists; unfold std_form_names; cbn [In];
+               repeat (first [left; reflexivity | right]) | ]
+         end.
+  discriminate.
+Qed.
+
+Theorem gen_forms_match_standard (c : cfg) (code : Z) (name : string) :
+  In c all_cfgs -> In (code, name) std_form_names ->
+  exists k, std_form_class c code = Some k /\
+            sfind (cfg_forms c) name = Some (class_desc (c_le c) k).
+Proof.
+  intros Hc Hn.
+  pose proof forms_match_all as H. rewrite forallb_forall in H. specialize (H c Hc).
+  unfold forms_match in H. rewrite forallb_forall in H. specialize (H (code, name) Hn).
+  unfold form_matches in H. cbn [fst snd] in H.
+  destruct (sfind (cfg_forms c) name) as [d|]; [|discriminate].
+  destruct (std_form_class c code) as [k|]; [|discriminate].
+  exists k. split; [reflexivity|]. f_equal. apply fdesc_eqb_eq. exact H.
+Qed.
+
+(* the display name of every standard form code, through both dicts the parser uses
+   (Enum(...ENUM_DW_FORM) of the abbreviation declaration and DW_FORM_raw2name) *)
+Definition names_match : bool :=
+  forallb (fun cn => match zfind gen_dec_form (fst cn), zfind gen_form_raw2name (fst cn) with
+                     | Some a, Some b => String.eqb a (snd cn) && String.eqb b (snd cn)
+                     | _, _ => false
+                     end) std_form_names.
+Lemma names_match_true : names_match = true.
+Proof. vm_compute. reflexivity. Qed.
+
+Theorem gen_form_names_match_standard (code : Z) (name : string) :
+  In (code, name) std_form_names ->
+  zfind gen_dec_form code = Some name /\ zfind gen_form_raw2name code = Some name.
+Proof.
+  intros Hn. pose proof names_match_true as H. unfold names_match in H.
+  rewrite forallb_forall in H. specialize (H (code, name) Hn). cbn [fst snd] in H.
+  destruct (zfind gen_dec_form code) as [a|]; [|discriminate].
+  destruct (zfind gen_form_raw2name code) as [b|]; [|discriminate].
+  apply andb_prop in H. destruct H as [Ha Hb].
+  apply String.eqb_eq in Ha, Hb. subst. split; reflexivity.
+Qed.
+
+(* what the entry parser needs: for a standard form code, the abbreviation's form name leads to a
+   reader of exactly the standard's class *)
+Lemma form_lookup (c : cfg) code k :
+  cfg_ok c = true -> std_form_class c code = Some k ->
+  exists name, enum_pass gen_dec_form code = EName name /\
+               zfind gen_form_raw2name code = Some name /\
+               In (code, name) std_form_names /\
+               form_parser (cfg_forms c) (EName name) = Ok (class_desc (c_le c) k).
+Proof.
+  intros Hc Hk. destruct (in_std_names_class c code k Hk) as [name Hn].
+  destruct (gen_form_names_match_standard code name Hn) as [H1 H2].
+  destruct (gen_forms_match_standard c code name (cfg_ok_in c Hc) Hn) as (k' & Hk' & Hf).
+  rewrite Hk in Hk'. injection Hk' as <-.
+  exists name. unfold enum_pass. rewrite H1. repeat split; auto.
+  unfold form_parser. rewrite Hf. reflexivity.
+Qed.
+
+(* the names the special cases of _parse_DIE test for *)
+Definition std_name (code : Z) : string :=
+  match zfind std_form_names code with Some n => n | None => EmptyString end.
+
+Lemma std_names_nodup : forall c1 c2 n, In (c1, n) std_form_names -> In (c2, n) std_form_names -> c1 = c2.
+Proof.
+  assert (H : forallb (fun a => forallb (fun b => negb (String.eqb (snd a) (snd b)) || (fst a =? fst b))
+                                        std_form_names) std_form_names = true) by (vm_compute; reflexivity).
+  intros c1 c2 n H1 H2. rewrite forallb_forall in H. specialize (H _ H1).
+  rewrite forallb_forall in H. specialize (H _ H2). cbn [fst snd] in H.
+  rewrite String.eqb_refl in H. cbn in H. lia.
+Qed.
+
+(* ------------------------------------------------------------------ the other generated data *)
+Theorem gen_initlen_matches_prim :
+  gen_initlen_reserved_lo = INITLEN_RESERVED_LO /\ gen_initlen_escape = 0xffffffff.
+Proof. split; reflexivity. Qed.
+
+Theorem gen_abbrev_shape :
+  gen_abbrev_tag_field = DUleb /\ gen_abbrev_children_field = DInt true 1 false /\
+  gen_abbrev_at_field = DUleb /\ gen_abbrev_form_field = DUleb /\ gen_abbrev_value_field = DSleb /\
+  gen_abbrev_value_forms = ["DW_FORM_implicit_const"] /\
+  gen_abbrev_stop = ("DW_AT_null", "DW_FORM_null") /\
+  gen_dec_tag_pass = true /\ gen_dec_at_pass = true /\ gen_dec_form_pass = true /\
+  gen_dec_children = [(0, "DW_CHILDREN_no"); (1, "DW_CHILDREN_yes")] /\
+  zfind gen_dec_at 0 = Some "DW_AT_null" /\ zfind gen_dec_form 0 = Some "DW_FORM_null".
+Proof. repeat split; reflexivity. Qed.
+
+(* unit header layouts written from the standard *)
+Definition std_off (le is64 : bool) : fdesc := DInt le (if is64 then 8 else 4) false.
+Definition std_u8 : fdesc := DInt true 1 false.
+Definition std_cu_lt5 (le is64 : bool) : list (string * fdesc) :=
+  [("debug_abbrev_offset", std_off le is64); ("address_size", std_u8)].
+Definition std_cu_ge5 (le is64 : bool) : list (string * list (string * fdesc)) :=
+  let base := [("address_size", std_u8); ("debug_abbrev_offset", std_off le is64)] in
+  [("DW_UT_compile", base); ("DW_UT_partial", base);
+   ("DW_UT_skeleton", base ++ [("dwo_id", DInt le 8 false)]);
+   ("DW_UT_split_compile", base ++ [("dwo_id", DInt le 8 false)]);
+   ("DW_UT_type", base ++ [("type_signature", DInt le 8 false); ("type_offset", std_off le is64)]);
+   ("DW_UT_split_type", base ++ [("type_signature", DInt le 8 false); ("type_offset", std_off le is64)])].
+Definition std_tu (le is64 : bool) : list (string * fdesc) :=
+  [("version", DInt le 2 false); ("debug_abbrev_offset", std_off le is64); ("address_size", std_u8);
+   ("signature", DInt le 8 false); ("type_offset", std_off le is64)].
+
+Theorem gen_headers_match_standard (le is64 : bool) :
+  gen_cu_header_lt5 le is64 = std_cu_lt5 le is64 /\
+  gen_cu_header_ge5 le is64 = std_cu_ge5 le is64 /\
+  gen_tu_header le is64 = std_tu le is64 /\
+  gen_cu_v5_from = 5 /\ gen_dec_ut_pass = false /\
+  (forall k, In k [1; 2; 3; 4; 5; 6] ->
+     zfind gen_dec_ut k = nth_error ["DW_UT_compile"; "DW_UT_type"; "DW_UT_partial"; "DW_UT_skeleton";
+                                     "DW_UT_split_compile"; "DW_UT_split_type"] (Z.to_nat (k - 1))).
+Proof.
+  destruct le, is64; repeat split; try reflexivity;
+    intros k Hk; cbn [In] in Hk; intuition (subst; reflexivity).
+Qed.
+
+(* the display-name dicts are one-to-one on names: distinct numbers never collide as dict keys
+   of DIE.attributes *)
+Fixpoint names_nodup (l : list (Z * string)) : bool :=
+  match l with
+  | [] => true
+  | (_, n) :: r => negb (existsb (fun x => String.eqb (snd x) n) r) && names_nodup r
+  end.
+Lemma names_nodup_inj l : names_nodup l = true ->
+  forall a b n, zfind l a = Some n -> zfind l b = Some n -> a = b.
+Proof.
+  induction l as [|[k m] r IH]; intros H a b n Ha Hb; [discriminate|].
+  cbn [names_nodup] in H. apply andb_prop in H. destruct H as [Hm Hr].
+  assert (Hnot : forall x, zfind r x = Some m -> False).
+  { intros x Hx. apply negb_true_iff in Hm.
+    assert (existsb (fun y => String.eqb (snd y) m) r = true); [|congruence].
+    clear - Hx. induction r as [|[k' m'] r IH]; [discriminate|].
+    cbn [zfind] in Hx. cbn [existsb snd]. destruct (k' =? x).
+    - injection Hx as ->. rewrite String.eqb_refl. reflexivity.
+    - rewrite IH by exact Hx. apply orb_true_r. }
+  cbn [zfind] in Ha, Hb.
+  destruct (Z.eqb_spec k a) as [Eka|Hka]; destruct (Z.eqb_spec k b) as [Ekb|Hkb].
+  - congruence.
+  - injection Ha as Ha. subst m. exfalso. eapply Hnot; eauto.
+  - injection Hb as Hb. subst m. exfalso. eapply Hnot; eauto.
+  - eapply IH; eauto.
+Qed.
+
+Lemma enum_pass_inj l : names_nodup l = true -> forall a b, enum_pass l a = enum_pass l b -> a = b.
+Proof.
+  intros H a b. unfold enum_pass.
+  destruct (zfind l a) as [n|] eqn:Ea; destruct (zfind l b) as [m|] eqn:Eb; intros E; try discriminate.
+  - injection E as <-. eapply names_nodup_inj; eauto.
+  - injection E as <-. reflexivity.
+Qed.
+
+Theorem gen_at_names_one_to_one : forall a b, enum_pass gen_dec_at a = enum_pass gen_dec_at b -> a = b.
+Proof. apply enum_pass_inj. vm_compute. reflexivity. Qed.
+Theorem gen_tag_names_one_to_one : forall a b, enum_pass gen_dec_tag a = enum_pass gen_dec_tag b -> a = b.
+Proof. apply enum_pass_inj. vm_compute. reflexivity. Qed.
+Theorem gen_form_names_one_to_one : forall a b, enum_pass gen_dec_form a = enum_pass gen_dec_form b -> a = b.
+Proof. apply enum_pass_inj. vm_compute. reflexivity. Qed.
